@@ -123,7 +123,7 @@ func runSchedule(s [][3]string, n int, res *rep.Result, id int) {
 				res.Violate("C21", map[string]string{"conjunct": "cache-result", "schedule": fmt.Sprint(s)}, fmt.Sprintf("compilePattern schedule %v: proc %s got error %v for a matching value", s, p, err), s)
 			}
 			return "done"
-		case <-time.After(5 * time.Second):
+		case <-time.After(120 * time.Second):
 			return "timeout"
 		}
 	}
